@@ -404,6 +404,35 @@ func runMultiAsset[T maNum](rt *rapid.T, rec *evi.Recorder, kind string) {
 		if ol, _ := observe(l); !ol.equal(ra.add(rb).add(rc)) {
 			fail("add3-vs-reference", fmt.Sprintf("(a+b)+c reads %s want %s", ol, ra.add(rb).add(rc)))
 		}
+		// operands that are REUSED across several additions: x = a; x += B0; x += C0.
+		// B0 and C0 must read the same afterwards (no aliasing of their quantities
+		// into x), and a second sum built from the same operand objects must be right.
+		B0, C0 := mk(b), mk(c)
+		x := mk(a)
+		x.Add(B0)
+		x.Add(C0)
+		if ob, _ := observe(B0); !ob.equal(rb) {
+			fail("add-mutates-operand:reused", fmt.Sprintf("after x=a; x.Add(b); x.Add(c) the operand b reads %s, was %s", ob, rb))
+		}
+		if oc, _ := observe(C0); !oc.equal(rc) {
+			fail("add-mutates-operand:reused", fmt.Sprintf("after x=a; x.Add(b); x.Add(c) the operand c reads %s, was %s", oc, rc))
+		}
+		if ox, _ := observe(x); !ox.equal(ra.add(rb).add(rc)) {
+			fail("add3-vs-reference:reused", fmt.Sprintf("a+b+c with reused operands reads %s want %s", ox, ra.add(rb).add(rc)))
+		}
+		y := mk(nil)
+		y.Add(B0)
+		y.Add(B0)
+		if oy, _ := observe(y); !oy.equal(rb.add(rb)) {
+			fail("add-vs-reference:reused", fmt.Sprintf("0+b+b (same operand object twice) reads %s want %s", oy, rb.add(rb)))
+		}
+		if ob, _ := observe(B0); !ob.equal(rb) {
+			fail("add-mutates-operand:reused", fmt.Sprintf("after y=0; y.Add(b); y.Add(b) the operand b reads %s, was %s", ob, rb))
+		}
+		x.Add(C0)
+		if ob, _ := observe(B0); !ob.equal(rb) {
+			fail("add-mutates-operand:reused", fmt.Sprintf("a later Add into x changed operand b to %s, was %s", ob, rb))
+		}
 		// adding nil / empty is the identity
 		id := mk(a)
 		id.Add(nil)
